@@ -50,6 +50,13 @@ T_GlobalSeed ==
   /\ verdict' = Check(seedArg = "int" => Ev.seed # "unknown", "Reproducible:global_reseeded_from_entropy", verdict)
   /\ UNCHANGED <<seedArg, used, passedKey, passedPos>>
 
+\* a saved state of the global generator is restored: the stream is back at the position where it was saved (what is drawn
+\* next was drawn before -- Consume reports the re-use)
+T_GlobalRestore ==
+  /\ Step /\ Ev.e = "GlobalRestore"
+  /\ glob' = [key |-> <<"global", Ev.seed>>, pos |-> Ev.pos]
+  /\ UNCHANGED <<seedArg, used, verdict, passedKey, passedPos>>
+
 T_GlobalDraw ==
   /\ Step /\ Ev.e = "GlobalDraw"
   /\ used' = Consume(used, glob.key, glob.pos, Ev.n)
@@ -59,10 +66,10 @@ T_GlobalDraw ==
                    Check(~(\E v \in DOMAIN u : u[v] > 1), "Independent:variate_reused", verdict))
   /\ UNCHANGED <<seedArg, passedKey, passedPos>>
 
-T_Other == /\ Step /\ Ev.e \notin {"Begin", "Draw", "GlobalSeed", "GlobalDraw"}
+T_Other == /\ Step /\ Ev.e \notin {"Begin", "Draw", "GlobalSeed", "GlobalDraw", "GlobalRestore"}
            /\ UNCHANGED <<seedArg, glob, used, verdict, passedKey, passedPos>>
 
-TNext == T_Begin \/ T_Draw \/ T_GlobalSeed \/ T_GlobalDraw \/ T_Other
+TNext == T_Begin \/ T_Draw \/ T_GlobalSeed \/ T_GlobalRestore \/ T_GlobalDraw \/ T_Other
 TSpec == TInit /\ [][TNext]_tvars
 EmitVerdict == (l = Len(Trace) + 1) =>
    PrintT("@@" \o ToJson([tid |-> tid, clause |-> verdict.clause, line |-> verdict.line, events |-> Len(Trace)]))
